@@ -4,7 +4,7 @@ from __future__ import annotations
 import ast
 
 from .pymodel import Program
-from .cymodel import CyProgram, X, pp, walk
+from .cymodel import CyProgram, X, pp, walk, rename_x, canonical_mapping, names_in
 from .kernels import report_sites
 from .loopir import count_sites
 from .report import Run, AnalysisError
@@ -12,9 +12,55 @@ from .report import Run, AnalysisError
 TS = "pyunicorn.timeseries._ext.numerics"
 
 
+def _canon_body(f):
+    """The kernel body with identifiers renamed by *role* (alpha-normalised):
+    parameters by declared type (x, t: 1-D FIELD_t in order; mv_indices: 1-D
+    MASK_t; A: the 2-D buffer; N: the integer), loop variables by nesting
+    (i outer, j inner), k = the variable the scan loop increments, ref = the
+    name the scan compares against.  Renaming a local does not change it."""
+    roles = {}
+    def bufs(nd, tn=None):
+        return [n for n, t in f.args if t.kind in ("buffer", "memview")
+                and t.ndim == nd and (tn is None or t.name == tn)]
+    for n, c in zip(bufs(1, "FIELD_t"), ("x", "t")):
+        roles[n] = c
+    for n in bufs(1, "MASK_t")[:1]:
+        roles[n] = "mv_indices"
+    for n in bufs(2)[:1]:
+        roles[n] = "A"
+    for n in [n for n, t in f.args if t.kind == "simple"][:1]:
+        roles[n] = "N"
+    out = []
+    for st in f.body:
+        r = dict(roles)
+        if st.k == "for" and st.a[0].k == "name":
+            r[st.a[0].a[0]] = "i"
+            inner = [s for s in st.a[2] if s.k == "for" and s.a[0].k == "name"]
+            if inner:
+                J = inner[0].a[0].a[0]
+                r[J] = "j"
+                for w in walk(inner[0].a[2]):
+                    if isinstance(w, X) and w.k == "while":
+                        augs = [q for q in w.a[1] if q.k == "aug" and q.a[1].k == "name"]
+                        if not augs:
+                            continue
+                        K = augs[0].a[1].a[0]
+                        r[K] = "k"
+                        for c in _conj(w.a[0]):
+                            if c.k != "cmp":
+                                continue
+                            for side in (c.a[1], c.a[2]):
+                                if side.k == "name" and side.a[0] not in (K, J) \
+                                        and side.a[0] not in r:
+                                    r[side.a[0]] = "ref"
+        out.append(rename_x(st, canonical_mapping(r, names_in(st))))
+    return out
+
+
 def _shape(f):
     """Structural summary of a visibility kernel: pair loops, slope test,
     while-condition conjuncts, stores."""
+    body = _canon_body(f)
     loops = []
     whiles = []
     stores = []
@@ -41,9 +87,9 @@ def _shape(f):
                 for t in st.a[0]:
                     if t.k == "name":
                         assigns.setdefault(t.a[0], []).append(pp(st.a[1]))
-    go(f.body, [])
+    go(body, [])
     return {"loops": loops, "whiles": whiles, "stores": stores, "tests": tests,
-            "assigns": assigns}
+            "assigns": assigns, "body": body}
 
 
 def _conj(c: X):
@@ -75,14 +121,14 @@ def v1(run: Run, cy: CyProgram):
                 f"the two natural-visibility kernels iterate different pair domains: "
                 f"{mv[1]['loops']} vs {nomv[1]['loops']}")
     # identical slope expression for `test`
-    ok = mv[1]["assigns"].get("test") == nomv[1]["assigns"].get("test") and \
+    ok = mv[1]["assigns"].get("ref") == nomv[1]["assigns"].get("ref") and \
         mv[1]["assigns"].get("k") == nomv[1]["assigns"].get("k")
-    run.oblige("V1", "natural:slope", ok, sample={"test": mv[1]["assigns"].get("test")})
+    run.oblige("V1", "natural:slope", ok, sample={"ref": mv[1]["assigns"].get("ref")})
     if not ok:
         run.add("V1", "natural/slope", mv[0].where,
                 f"the two natural-visibility kernels compute different reference "
-                f"slopes / start indices: {mv[1]['assigns'].get('test')} vs "
-                f"{nomv[1]['assigns'].get('test')}")
+                f"slopes / start indices: {mv[1]['assigns'].get('ref')} vs "
+                f"{nomv[1]['assigns'].get('ref')}")
     # while condition: mv = no_mv + extra conjunct on mv_indices
     if len(mv[1]["whiles"]) != 1 or len(nomv[1]["whiles"]) != 1:
         raise AnalysisError("visibility kernels: expected exactly one scan loop each")
@@ -102,8 +148,9 @@ def v1(run: Run, cy: CyProgram):
     # strict comparison `<` between intermediate slope and reference slope
     for n, (f, sh) in fs.items():
         conds = _conj(sh["whiles"][0].a[0])
-        rel = [c for c in conds if c.k == "cmp" and ("test" in pp(c) or "minimum" in pp(c))]
-        ok = len(rel) == 1 and rel[0].a[0] == "<" and pp(rel[0].a[2]) in ("test", "minimum")
+        rel = [c for c in conds if c.k == "cmp" and "ref" in names_in(c)]
+        ok = len(rel) == 1 and ((rel[0].a[0] == "<" and pp(rel[0].a[2]) == "ref") or
+                                (rel[0].a[0] == ">" and pp(rel[0].a[1]) == "ref"))
         run.oblige("V1", f"{n}:strict", ok, sample={
             "where": f"{f.module.relpath}:{sh['whiles'][0].line}",
             "cond": [pp(c) for c in conds]})
@@ -111,23 +158,21 @@ def v1(run: Run, cy: CyProgram):
             run.add("V1", f"{n}/strictness", f"{f.module.relpath}:{sh['whiles'][0].line}",
                     f"{n}: an intermediate sample must lie *strictly* below the line "
                     f"(`slope_k < test`), found {[pp(c) for c in rel]}")
-        bound = [c for c in conds if pp(c).replace(" ", "") == "(k<j)"]
+        bound = [c for c in conds if pp(c).replace(" ", "") in ("(k<j)", "(j>k)")]
         run.oblige("V1", f"{n}:scan-bound", bool(bound), nontrivial=False)
         if not bound:
             run.add("V1", f"{n}/scan-bound", f"{f.module.relpath}:{sh['whiles'][0].line}",
                     f"{n}: the scan over intermediate samples is not bounded by k < j")
         # link iff the scan reached j
         tests = [t for t in sh["tests"] if "A[i, j]" in " ".join(t[1])]
-        ok = len(tests) == 1 and tests[0][0].replace(" ", "") == "(k==j)"
+        ok = len(tests) == 1 and tests[0][0].replace(" ", "") in ("(k==j)", "(j==k)")
         run.oblige("V1", f"{n}:link-condition", ok)
         if not ok:
             run.add("V1", f"{n}/link-condition", f.where,
                     f"{n}: a link must be set exactly when the scan reaches j (k == j)")
-        # symmetric stores
-        for st, chain, _ in sh["stores"]:
-            tg = [tuple(pp(i) for i in t.a[1]) for t in st.a[0]
-                  if t.k == "index" and pp(t.a[0]) == "A"]
-            sym = len(tg) == 2 and tg[0] == tuple(reversed(tg[1]))
+        # symmetric stores (chained or as neighbouring statements)
+        from .loopir import symmetric_store_report
+        for (arr, idx, v, st, sym) in symmetric_store_report(sh["body"], {"A"}):
             run.oblige("V1", f"{n}:symmetric-store@{st.line}", sym)
             if not sym:
                 run.add("V1", f"{n}/asymmetric-store", f"{f.module.relpath}:{st.line}",
